@@ -55,8 +55,8 @@ func checkC07(r *Run) {
 	const pb = "visor/blockdb.Unspents.ProcessBlock"
 	got := "visor/blockdb.Unspents.GetArray($0, $1, *)#0"
 	created := "fold[acc=nil; append(acc, coin.CreateUnspents($2.Block.Head, *))]"
-	r.RequireStore("C07-R2", pb, "each spent output is folded into the checksum", "var:xorHash := cipher.SHA256.Xor(*, coin.UxOut.SnapshotHash("+got+"[i]))")
-	r.RequireStore("C07-R2", pb, "each created output is folded into the checksum", "var:xorHash := cipher.SHA256.Xor*(*, coin.UxOut.SnapshotHash*("+created+"[i]))")
+	r.RequireStore("C07-R2", pb, "each spent output is folded into the checksum", "var:cipher.SHA256 := cipher.SHA256.Xor(*, coin.UxOut.SnapshotHash("+got+"[i]))")
+	r.RequireStore("C07-R2", pb, "each created output is folded into the checksum", "var:cipher.SHA256 := cipher.SHA256.Xor*(*, coin.UxOut.SnapshotHash*("+created+"[i]))")
 	r.RequireStore("C07-R2", pb, "spent hash recorded under the owner address for the index", "set{"+got+"[i].Body.Address}["+got+"[i].Body.Address] := append(*, [coin.UxOut.Hash("+got+"[i])])")
 	r.RequireStore("C07-R2", pb, "created hash recorded under the owner address for the index", "set{"+created+"[i].Body.Address}["+created+"[i].Body.Address] := append(*, [coin.UxOut.Hash*("+created+"[i])])")
 	r.RequireEveryIteration("C07-R2", pb, "visor/blockdb.pool.delete")
@@ -142,12 +142,12 @@ func c07Predicted(r *Run) {
 		return
 	}
 	role := map[ssa.Value]string{} // outer alloc -> role
-	const ALL = "iface:visor.UnconfirmedTransactionPooler.AllRawTransactions(^vs.unconfirmed, $0)#0"
+	const ALL = "iface:visor.UnconfirmedTransactionPooler.AllRawTransactions(^$^0.unconfirmed, $0)#0"
 	want := map[string]string{
-		"confirmed": "iface:visor/blockdb.UnspentPooler.GetUnspentsOfAddrs(iface:visor.Blockchainer.Unspent*(^vs.blockchain), $0, ^addrs)#0",
-		"incoming":  "visor.txnOutputsForAddrs(^head.Block.Head, ^addrs, " + ALL + ")#0",
-		"spent":     "iface:visor/blockdb.UnspentPooler.GetArray(iface:visor.Blockchainer.Unspent*(^vs.blockchain), $0, fold[acc=nil; append(acc, " + ALL + "[i].In)])#0",
-		"head":      "iface:visor.Blockchainer.Head(^vs.blockchain, $0)#0",
+		"confirmed": "iface:visor/blockdb.UnspentPooler.GetUnspentsOfAddrs(iface:visor.Blockchainer.Unspent*(^$^0.blockchain), $0, ^$^1)#0",
+		"incoming":  "visor.txnOutputsForAddrs(^local:*coin.SignedBlock.Block.Head, ^$^1, " + ALL + ")#0",
+		"spent":     "iface:visor/blockdb.UnspentPooler.GetArray(iface:visor.Blockchainer.Unspent*(^$^0.blockchain), $0, fold[acc=nil; append(acc, " + ALL + "[i].In)])#0",
+		"head":      "iface:visor.Blockchainer.Head(^$^0.blockchain, $0)#0",
 	}
 	for _, b := range inner.Blocks {
 		for _, in := range b.Instrs {
@@ -229,15 +229,15 @@ func c07Predicted(r *Run) {
 					}
 					t := fo.Term(mu.Value)
 					k := fo.Term(mu.Key)
-					if glob("append(*, [local:uxa[i]])", t) && k == "local:uxa[i].Body.Address" {
+					if glob("append(*, [local:coin.UxArray[i]])", t) && k == "local:coin.UxArray[i].Body.Address" {
 						lp := fo.innermost[mu.Block()]
 						guard := false
 						for _, a := range fo.Must(mu.Block()) {
-							if a.S == "lookup(set{$1[i]}[local:uxa[i].Body.Address])#1" {
+							if a.S == "lookup(set{$1[i]}[local:coin.UxArray[i].Body.Address])#1" {
 								guard = true
 							}
 						}
-						okSpend = guard && lp != nil && glob("i < len(local:uxa)", fo.loopSpace(lp))
+						okSpend = guard && lp != nil && glob("i < len(local:coin.UxArray)", fo.loopSpace(lp))
 					}
 				}
 			}
@@ -247,17 +247,17 @@ func c07Predicted(r *Run) {
 	r.Check("C07-R5", gb+": predicted array sites", "", nP == 1, "")
 	// reported fields
 	const U = "lookup(map{}[$1[i]])#0"
-	P := "coin.UxArray.Add(coin.UxArray.Sub(" + U + ", set{local:uxa[i].Body.Address}[$1[i]]), map{}[$1[i]])"
+	P := "coin.UxArray.Add(coin.UxArray.Sub(" + U + ", set{local:coin.UxArray[i].Body.Address}[$1[i]]), map{}[$1[i]])"
 	for _, st := range fo.StoreFacts() {
 		switch {
-		case strings.HasPrefix(st.S, "local:bp.Confirmed.Coins := "):
-			r.Check("C07-R5", gb+": Confirmed.Coins is the coin total of the confirmed outputs", r.P.Pos(st.In.Pos()), st.S == "local:bp.Confirmed.Coins := coin.UxArray.Coins("+U+")#0", trunc(st.S, 200))
-		case strings.HasPrefix(st.S, "local:bp.Confirmed.Hours := "):
-			r.Check("C07-R5", gb+": Confirmed.Hours is the hour total of the confirmed outputs at head time (0 on the tolerated overflow)", r.P.Pos(st.In.Pos()), strings.Contains(st.S, "coin.UxArray.CoinHours("+U+", local:head.Block.Head.Time)#0") && !strings.Contains(st.S, "UxArray.Add("), trunc(st.S, 200))
-		case strings.HasPrefix(st.S, "local:bp.Predicted.Coins := "):
-			r.Check("C07-R5", gb+": Predicted.Coins is the coin total of the predicted outputs", r.P.Pos(st.In.Pos()), st.S == "local:bp.Predicted.Coins := coin.UxArray.Coins("+P+")#0", trunc(st.S, 300))
-		case strings.HasPrefix(st.S, "local:bp.Predicted.Hours := "):
-			r.Check("C07-R5", gb+": Predicted.Hours is the hour total of the predicted outputs at head time", r.P.Pos(st.In.Pos()), strings.Contains(st.S, "coin.UxArray.CoinHours("+P+", local:head.Block.Head.Time)#0"), trunc(st.S, 300))
+		case strings.HasPrefix(st.S, "local:wallet.BalancePair.Confirmed.Coins := "):
+			r.Check("C07-R5", gb+": Confirmed.Coins is the coin total of the confirmed outputs", r.P.Pos(st.In.Pos()), st.S == "local:wallet.BalancePair.Confirmed.Coins := coin.UxArray.Coins("+U+")#0", trunc(st.S, 200))
+		case strings.HasPrefix(st.S, "local:wallet.BalancePair.Confirmed.Hours := "):
+			r.Check("C07-R5", gb+": Confirmed.Hours is the hour total of the confirmed outputs at head time (0 on the tolerated overflow)", r.P.Pos(st.In.Pos()), strings.Contains(st.S, "coin.UxArray.CoinHours("+U+", local:*coin.SignedBlock.Block.Head.Time)#0") && !strings.Contains(st.S, "UxArray.Add("), trunc(st.S, 200))
+		case strings.HasPrefix(st.S, "local:wallet.BalancePair.Predicted.Coins := "):
+			r.Check("C07-R5", gb+": Predicted.Coins is the coin total of the predicted outputs", r.P.Pos(st.In.Pos()), st.S == "local:wallet.BalancePair.Predicted.Coins := coin.UxArray.Coins("+P+")#0", trunc(st.S, 300))
+		case strings.HasPrefix(st.S, "local:wallet.BalancePair.Predicted.Hours := "):
+			r.Check("C07-R5", gb+": Predicted.Hours is the hour total of the predicted outputs at head time", r.P.Pos(st.In.Pos()), strings.Contains(st.S, "coin.UxArray.CoinHours("+P+", local:*coin.SignedBlock.Block.Head.Time)#0"), trunc(st.S, 300))
 		}
 	}
 	r.Min("C07-R5", 12)
